@@ -3588,3 +3588,82 @@ def sg1(proj, rep, func_quals):
             rep.ok('SG1', q, 'single formulation', m, fi.node, text=f'{q} single formulation')
     rep.count('SG1.functions', n)
     return n
+
+
+# ------------------------------------------------------------------------------------------------ DTF1
+RULE_DTF1 = ('DTF1: a buffer whose dtype is certainly real - allocated without dtype (float64 by default) or with an explicit real floating / integer dtype - never '
+             'receives a value that is certainly complex (an imaginary literal factor, `exp(1j * ..)`, `torch.complex(..)`, a name bound to such an expression): NumPy '
+             'discards the imaginary part with a ComplexWarning only. (Buffers typed after an input are DT9; stores inside a dtype-guarded branch are skipped.)')
+_REAL_DT_NAMES = ('float64', 'float32', 'float16', 'float_', 'double', 'int64', 'int32', 'int8', 'uint8', 'int_', 'intp', 'bool_', 'bool', 'float', 'int')
+
+
+def _certainly_complex(fi, e, at, depth=0):
+    for y in ast.walk(e):
+        if isinstance(y, ast.Constant) and isinstance(y.value, complex):
+            # a complex literal under .real / .imag / abs() does not make the value complex
+            if not any((isinstance(p, ast.Attribute) and p.attr in ('real', 'imag')) or (isinstance(p, ast.Call) and ast.unparse(p.func).split('.')[-1] in ('abs', 'absolute', 'angle'))
+                       for p in _ancestors(y, e) if p is not e) and not (isinstance(e, ast.Attribute) and e.attr in ('real', 'imag')):
+                return True
+        if isinstance(y, ast.Call) and ast.unparse(y.func) in ('torch.complex',):
+            return True
+    if depth < 2:
+        top = e
+        if isinstance(top, ast.Attribute) and top.attr in ('real', 'imag'):
+            return False
+        for y in ast.walk(e):
+            if isinstance(y, ast.Name):
+                par = getattr(y, '_parent', None)
+                if isinstance(par, ast.Attribute) and par.attr in ('real', 'imag', 'shape', 'dtype', 'ndim'):
+                    continue
+                rd = reaching_defs(fi.node, y.id, at)
+                if any(v == 'param' or p is not None or not isinstance(st, ast.Assign) for v, st, p in rd):
+                    continue        # loop targets, unpackings and parameters are not decided
+                if any(isinstance(p2, (ast.Compare, ast.IfExp)) and (not isinstance(p2, ast.IfExp) or y in ast.walk(p2.test)) for p2 in _ancestors(y, e)):
+                    continue        # a name that only steers a test
+                defs = [v for v, st, p in rd if isinstance(v, ast.AST)]
+                if defs and all(_certainly_complex(fi, v, at, depth + 1) for v in defs) and not any(
+                        isinstance(p, ast.Call) and ast.unparse(p.func).split('.')[-1] in ('abs', 'absolute', 'angle', 'real', 'isreal', 'iscomplexobj', 'len') for p in _ancestors(y, e)):
+                    return True
+    return False
+
+
+def dtf1(proj, rep, modules=None):
+    rep.rule('DTF1', RULE_DTF1)
+    n = 0
+    for fi in proj.iter_functions():
+        m = fi.module
+        if not _in_scope(m, modules):
+            continue
+        bufs = {}
+        for s in ast.walk(fi.node):
+            if isinstance(s, ast.Assign) and len(s.targets) == 1 and isinstance(s.targets[0], ast.Name) and isinstance(s.value, ast.Call) \
+                    and ast.unparse(s.value.func) in ('np.zeros', 'np.empty', 'np.ones', 'np.eye', 'np.full', 'numpy.zeros', 'numpy.empty'):
+                dt = next((k.value for k in s.value.keywords if k.arg == 'dtype'), None)
+                if dt is None and ast.unparse(s.value.func).split('.')[-1] in ('zeros', 'empty', 'ones') and len(s.value.args) >= 2:
+                    dt = s.value.args[1]
+                if dt is None and ast.unparse(s.value.func).split('.')[-1] == 'full':
+                    continue
+                if dt is None or ast.unparse(dt).split('.')[-1] in _REAL_DT_NAMES:
+                    # a name that is re-allocated elsewhere with another dtype is not decided
+                    others = [x for x in ast.walk(fi.node) if isinstance(x, ast.Assign) and any(isinstance(t, ast.Name) and t.id == s.targets[0].id for t in x.targets) and x is not s]
+                    if not others:
+                        bufs[s.targets[0].id] = (s, 'float64 (default)' if dt is None else ast.unparse(dt))
+        if not bufs:
+            continue
+        for a in ast.walk(fi.node):
+            tgt = None
+            if isinstance(a, ast.Assign) and isinstance(a.targets[0], ast.Subscript) and isinstance(a.targets[0].value, ast.Name):
+                tgt, val = a.targets[0].value.id, a.value
+            elif isinstance(a, ast.AugAssign) and isinstance(a.target, (ast.Subscript, ast.Name)):
+                b = a.target.value if isinstance(a.target, ast.Subscript) else a.target
+                if isinstance(b, ast.Name):
+                    tgt, val = b.id, a.value
+            if tgt not in bufs or a.lineno < bufs[tgt][0].lineno:
+                continue
+            n += 1
+            guarded = any(isinstance(p, ast.If) and any(k in ast.unparse(p.test) for k in ('real', 'complex', 'dtype')) for p in _ancestors(a, fi.node))
+            if not guarded and _certainly_complex(fi, val, a):
+                rep.touch(m)
+                rep.violation('DTF1', fi.qual, f'`{ast.unparse(bufs[tgt][0])[:60]}` is {bufs[tgt][1]}; `{ast.unparse(a)[:60]}` stores a complex value: the imaginary part is discarded', m, a)
+    rep.count('DTF1.stores_into_real_buffers', n)
+    return n
